@@ -280,6 +280,9 @@ GRAINS = [["H", "O", "H2O", "GRAIN0", "GRAIN-", "e-"], ["H", "He", "GRAIN0"], ["
 # a user-declared element without mass number, present as an atom and in ions: it weighs 1 like a dust grain
 MASSLESS = [["H2", "CO", "He", "He+", "O", "C+", "H+", "PAH+", "PAH-", "H", "C", "PAH", "e-"], ["H", "Xx", "Xx+", "H2", "e-"]]
 FINDINGS = [["H", "C", "CO", "e-"], ["H", "Xx", "XxH", "H2", "e-"]]
+# an element that comes before H in the element list and a molecule holding several H per atom of it: when that molecule holds
+# nearly everything, the first column's largest entry is in the H row and the LU factorisation must interchange rows
+PIVOTING = [["H", "C", "CH4", "CH2", "H2", "e-"], ["H", "C", "D", "CH4", "CD4", "HD", "e-"]]
 
 
 def run(res, info):
@@ -293,8 +296,9 @@ def run(res, info):
     nb = 12 if res.tier == "quick" else 400
     for i, sp in enumerate(FIXED):
         check_net(res, model, sp, rng, ("fixed", i), render=True)
-    for i, sp in enumerate(FIXED[:3] if res.tier == "quick" else FIXED + GRAINS):
+    for i, sp in enumerate((FIXED[:3] if res.tier == "quick" else FIXED + GRAINS) + PIVOTING):
         check_driver(res, sp, rng, ("driver", i))
+        check_driver(res, sp, rng, ("driver-odeint", i), solver="odeint")
     for i, sp in enumerate(FINDINGS):
         check_net(res, model, sp, rng, ("finding", i), render=True)
     for i, sp in enumerate(GRAINS):
@@ -310,7 +314,7 @@ def run(res, info):
 CXX = fw.VERIF / "harness" / "cxx"
 
 
-def check_driver(res, species_names, rng, tag):
+def check_driver(res, species_names, rng, tag, solver="cvode"):
     """channel C: the rendered Naunet::SetReferenceAbund and Naunet::Renorm (cvode) compiled against the SUNDIALS
     stand-in (with a real dense solve) and called several times on ONE object: every call must restore the
     reference ratios, and a vector that already has them must come back unchanged"""
@@ -320,13 +324,22 @@ def check_driver(res, species_names, rng, tag):
     ename = [next(iter(e.element_count)) for e in net.elements]
     if "H" not in ename or any(el not in ename for s in species if not s.is_electron for el in s.element_count):
         return
-    d = ol.render(net, "cvode", "dense", "cpu")
+    case["solver"] = solver
+    exe_dir = ol.render(net, "cvode", "dense", "cpu") if solver == "cvode" else ol.render(net, "odeint", "rosenbrock4", "cpu")
+    d = exe_dir
     exe = d / "renorm"
-    srcs = ["naunet.cpp", "naunet_renorm.cpp", "naunet_physics.cpp", "naunet_constants.cpp", "naunet_utilities.cpp"]
-    r = subprocess.run(["g++", "-std=c++17", "-O0", "-w", "-I", str(CXX / "sundials"), "-I", str(CXX), "-I", str(d / "include"), "-o", str(exe),
-                        *[str(d / "src" / f) for f in srcs], str(CXX / "mock_renorm.cpp")], stdout=subprocess.PIPE, stderr=subprocess.STDOUT, text=True)
+    if solver == "cvode":
+        srcs = ["naunet.cpp", "naunet_renorm.cpp", "naunet_physics.cpp", "naunet_constants.cpp", "naunet_utilities.cpp"]
+        cmd = ["g++", "-std=c++17", "-O0", "-w", "-I", str(CXX / "sundials"), "-I", str(CXX), "-I", str(d / "include"), "-o", str(exe),
+               *[str(d / "src" / f) for f in srcs], str(CXX / "mock_renorm.cpp")]
+    else:
+        # the Odeint Renorm solves with uBLAS lu_factorize / lu_substitute: the stand-in factorises with partial pivoting
+        srcs = ["naunet.cpp", "naunet_ode.cpp", "naunet_renorm.cpp", "naunet_physics.cpp", "naunet_constants.cpp", "naunet_utilities.cpp"]
+        cmd = ["g++", "-std=c++17", "-O0", "-w", "-I", str(CXX / "boost"), "-I", str(d / "include"), "-o", str(exe),
+               *[str(d / "src" / f) for f in srcs], str(CXX / "mock_renorm_odeint.cpp")]
+    r = subprocess.run(cmd, stdout=subprocess.PIPE, stderr=subprocess.STDOUT, text=True)
     if r.returncode != 0:
-        res.violation("correspondence", f"rendered cvode sources with Renorm do not compile against the stand-in: {r.stdout[-500:]}", case)
+        res.violation("correspondence", f"rendered {solver} sources with Renorm do not compile against the stand-in: {r.stdout[-500:]}", case)
         ol.cleanup_scratch()
         return
     n = len(species)
@@ -338,7 +351,12 @@ def check_driver(res, species_names, rng, tag):
         return {el: tot[el] / tot["H"] for el in ename}
     want = ratios(ref)
     match = [x * 3.5 for x in ref]
-    inputs = [vec(), vec(), match, vec()]
+    # ... and vectors in which one species holds nearly everything (the coupling matrix then needs row interchanges)
+    def skewed(k):
+        v = vec()
+        v[k] *= 1.0e4
+        return v
+    inputs = [vec(), vec(), match, vec()] + [skewed(k) for k in range(n) if not species[k].is_electron]
     out = subprocess.run([str(exe), ",".join(repr(x) for x in ref)] + [",".join(repr(x) for x in v) for v in inputs],
                          stdout=subprocess.PIPE, text=True).stdout.splitlines()
     if len(out) != len(inputs):
